@@ -39,8 +39,10 @@ CFG = {
                   "from_128_xprv, negative-integer writer, JSON number encoder, EMIP-3 container slicing, witness-array special check, native "
                   "script schema dispatch) a faithful model with explicit Panic results never panics on ANY input outside one narrow decidable "
                   "class (a string head declaring >= 2^31 bytes it does not have: allocation inside the cbor_event dependency), with the guards "
-                  "as proof content and a refutation witness for every panic the code had before its repair; (c) every value of the writer "
-                  "image re-serialises to one well-formed CBOR item as recognised by the independent parser of Cbor/Item.v. "
+                  "as proof content, a refutation witness for every panic the code had before its repair, and a refinement theorem (with the real "
+                  "allocator a decoder either behaves as the total one or panics in the allocation); (c) what the schema decoder returns for ANY "
+                  "accepted input (< 2^60 bytes) - and every value of the writer image - re-serialises to one well-formed CBOR item as recognised "
+                  "by the independent parser of Cbor/Item.v. "
                   "What is OBSERVED, not proved: the compiled library on every public parsing entry point (from_bytes of ~150 types, raw "
                   "hash/key/address bytes, from_hex, from_bech32, from_base58, from_json, JSON/metadata/Plutus converters, EMIP-3) over an "
                   "exhaustive short-input sweep and structure-aware mutations, each case in a child process so that panic, abort and "
@@ -52,7 +54,7 @@ CFG = {
                   "compiled code on ALL inputs) is decided by observation on the explored inputs only - it is not a theorem. Not covered: wasm32 "
                   "targets (usize = 32 bits, JsError paths), recursion deeper than the generated nesting (256), allocation behaviour other "
                   "than on this machine, bech32/hex/serde_json/num-bigint internals (external crates, observed only). No axioms.",
-    "theorems": ["C02_model_total", "C02_ledger_total", "C02_reserialise_wf", "C02_reserialise_after_decode_wf",
+    "theorems": ["C02_model_total", "C02_ledger_total", "C02_reserialise_wf", "C02_reserialise_full", "C02_reserialise_after_decode_wf",
                  "C02_address_total", "C02_byron_total", "C02_third_element_total", "C02_bounded_bytes_total", "C02_from_hex_total",
                  "C02_hash_total", "C02_xprv_total", "C02_nint_writer_total", "C02_json_number_total", "C02_emip3_total",
                  "C02_witness_special_total", "C02_native_script_schema_total", "C02_legacy_panics_refuted", "C02_huge_length_refuted",
